@@ -59,12 +59,16 @@ Record state := mkState { heap : list obj; inflight : list nat; ptab : list (nat
 Record config := mkConfig {
   classes : list (list string);       (* constructor argument names per class id *)
   priors : list (nat * (Z * Z));      (* initial Prior objects: (id, (lower, upper)) *)
-  cleanup : bool }.                   (* does the recursion wrapper clean up on exceptions? *)
+  cleanup : bool;                     (* does the recursion wrapper clean up on exceptions? *)
+  dthaws : bool;                      (* does gaussian_prior_model_for_arguments unfreeze `self`? *)
+  itransfers : bool }.                (* does Collection.__setitem__ write the replaced value's id into the assigned object? *)
 
 (* /repo since 5afd9f1: try/finally in DynamicRecursionCache.__call__ *)
 Definition wrapper_cleanup : bool := true.
 (* the pinned code: Model.gaussian_prior_model_for_arguments starts with self.unfreeze() *)
 Definition derive_thaws : bool := true.
+(* the pinned code: Collection.__setitem__ writes the id of the replaced value into the assigned object *)
+Definition setitem_transfers : bool := true.
 
 Definition FUEL : nat := 12.
 
@@ -784,7 +788,7 @@ Definition value_id (st : state) (v : value) : option nat :=
   | VConst _ => None
   end.
 
-Definition op_setitem (o : nat) (key : string) (v : value) : M unit :=
+Definition op_setitem (cfg : config) (o : nat) (key : string) (v : value) : M unit :=
   ob <- gets (fun st => get st o) ;;
   match ob with
   | None => raise EAttribute
@@ -794,7 +798,7 @@ Definition op_setitem (o : nat) (key : string) (v : value) : M unit :=
           if ofrozen ob then raise EAssertion
           else
             old <- gets (fun st => match sassoc key (oattrs ob) with Some w => value_id st w | None => None end) ;;
-            _ <- match old, v with
+            _ <- match (if itransfers cfg then old else None), v with
                  | Some i, VPrior p => set_pid p i
                  | Some i, VRef c =>
                      fz <- gets (fun st => frozen_pm st v) ;;
@@ -808,7 +812,7 @@ Definition op_setitem (o : nat) (key : string) (v : value) : M unit :=
 
 (* mapper_from_prior_arguments({p: p for p in self.priors}) -> gaussian_prior_model_for_arguments:
    a new model is built and thrown away; what remains is what it did to `self` *)
-Fixpoint derive (n : nat) (idf : nat -> nat) (a : list nat) (o : nat) : M unit :=
+Fixpoint derive (cfg : config) (n : nat) (idf : nat -> nat) (a : list nat) (o : nat) : M unit :=
   match n with
   | 0 => raise EOther
   | S n' =>
@@ -822,11 +826,11 @@ Fixpoint derive (n : nat) (idf : nat -> nat) (a : list nat) (o : nat) : M unit :
                        match snd kv with
                        | VPrior p => need p
                        | VConst _ => ret tt
-                       | VRef c => k <- gets (fun st => is_pm st c) ;; if k then derive n' idf a c else ret tt
+                       | VRef c => k <- gets (fun st => is_pm st c) ;; if k then derive cfg n' idf a c else ret tt
                        end) attrs ;;
           ret tt
       | Some (KModel _, attrs) =>
-          _ <- (if derive_thaws then unfreeze FUEL o else ret tt) ;;
+          _ <- (if dthaws cfg then unfreeze FUEL o else ret tt) ;;
           _ <- mapM (fun kv : string * value => match snd kv with VPrior p => need p | _ => ret tt end) attrs ;;
           _ <- mapM (fun kv : string * value =>
                        match snd kv with
@@ -842,16 +846,16 @@ Fixpoint derive (n : nat) (idf : nat -> nat) (a : list nat) (o : nat) : M unit :
                        end) attrs ;;
           _ <- mapM (fun kv : string * value =>
                        match snd kv with
-                       | VRef c => k <- gets (fun st => is_pm st c) ;; if k then derive n' idf a c else ret tt
+                       | VRef c => k <- gets (fun st => is_pm st c) ;; if k then derive cfg n' idf a c else ret tt
                        | _ => ret tt
                        end) attrs ;;
           ret tt
       end
   end.
 
-Definition op_derive (o : nat) : M unit :=
+Definition op_derive (cfg : config) (o : nat) : M unit :=
   c <- call_attr o SPrior 1 ;; l <- as_list c ;; idf <- gets pid_of ;;
-  derive FUEL idf (map (fun it : item => leaf_id idf (snd it)) l) o.
+  derive cfg FUEL idf (map (fun it : item => leaf_id idf (snd it)) l) o.
 
 (* ------------------------------------------------------------------ operations *)
 Inductive op :=
@@ -876,8 +880,8 @@ Definition step (cfg : config) (x : op) : M answer :=
   | OFreeze o => unit_ans (freeze FUEL o)
   | OUnfreeze o => unit_ans (unfreeze FUEL o)
   | OSet o name v => unit_ans (op_set o name v)
-  | OSetItem o key v => unit_ans (op_setitem o key v)
-  | ODerive o => unit_ans (op_derive o)
+  | OSetItem o key v => unit_ans (op_setitem cfg o key v)
+  | ODerive o => unit_ans (op_derive cfg o)
   | OAppend o v => unit_ans (op_append o v)
   | ODel o name => unit_ans (op_del o name)
   | OCopy o => unit_ans (op_copy o)
@@ -938,7 +942,7 @@ Inductive case := Case (classes : list (list string)) (priors : list (nat * (Z *
 Definition check_case (c : case) : bool :=
   match c with
   | Case cl pr ops outs fz =>
-      let cfg := mkConfig cl pr wrapper_cleanup in
+      let cfg := mkConfig cl pr wrapper_cleanup derive_thaws setitem_transfers in
       let (st, got) := run cfg ops (init cfg) in
       list_eqb outcome_eqb got outs && list_eqb Bool.eqb (map ofrozen (heap st)) fz
   end.
